@@ -139,6 +139,74 @@ fn expand(cfg: &Cfg, data: &[u8], hist: &Vec<Step>, report: &mut Report) -> Vec<
     succ
 }
 
+/// Deep lanes: every cyclic consumer pattern of length <= 3 over a reduced alphabet, with reads
+/// that deliver everything or one byte, repeated 3000 times: a leak of one byte per cycle is far
+/// beyond the bound by then even where the breadth-first search has not reached that depth.
+fn long_runs(cfg: &Cfg, data: &[u8], report: &mut Report) {
+    let mut alpha: Vec<Op> = vec![Op::More, Op::Advance(1)];
+    if cfg.m > 1 {
+        alpha.push(Op::Advance(cfg.m));
+    }
+    if cfg.m > 2 {
+        alpha.push(Op::Advance((cfg.m + 1) / 2));
+    }
+    for &c in &cfg.chunks {
+        alpha.push(Op::SetChunk(c));
+    }
+    let limit = bound(cfg);
+    let n = alpha.len();
+    let mut patterns: Vec<Vec<usize>> = Vec::new();
+    for a in 0..n {
+        patterns.push(vec![a]);
+        for b in 0..n {
+            patterns.push(vec![a, b]);
+            for c in 0..n {
+                patterns.push(vec![a, b, c]);
+            }
+        }
+    }
+    for pat in &patterns {
+        for grain in [Grain::OneShot, Grain::Uniform(1)] {
+            let (src, st) = ScriptedSource::new(SourceCfg::new(data, grain.clone()), vec![]);
+            let mut r = DeferredReader::from_read(src);
+            r.set_chunk_size(cfg.chunk);
+            let mut applied = 0u64;
+            'run: for cycle in 0..3000usize {
+                for &i in pat {
+                    let op = &alpha[i];
+                    let bl = r.buf_len();
+                    let enabled = match op {
+                        Op::More => bl < cfg.m,
+                        Op::Advance(k) => *k <= bl,
+                        Op::SetChunk(_) => true,
+                    };
+                    if !enabled {
+                        continue;
+                    }
+                    apply(&mut r, op);
+                    applied += 1;
+                    let s = r.verif_state();
+                    if s.buf_len > limit || s.buf_capacity > 2 * limit {
+                        report.violation(
+                            "reader/streaming-memory/bound",
+                            format!("chunk {} item size {}: cyclic pattern {:?} ({grain:?} reads), cycle {cycle}: the buffer has len {} / capacity {} (bound {limit} / {})", cfg.chunk, cfg.m, pat.iter().map(|&i| format!("{:?}", alpha[i])).collect::<Vec<_>>(), s.buf_len, s.buf_capacity, 2 * limit),
+                            json!({"property": "C10", "subject": "DeferredReader", "chunk": cfg.chunk, "m": cfg.m, "pattern": pat.iter().map(|&i| format!("{:?}", alpha[i])).collect::<Vec<_>>(), "cycle": cycle}),
+                            cycle as u64,
+                        );
+                        break 'run;
+                    }
+                    if st.borrow().pos + 4 * limit > data.len() {
+                        break 'run; // the finite stand-in for the endless stream is used up
+                    }
+                }
+            }
+            report.evaluations += applied;
+            report.transitions += applied;
+            report.count("reader_long_run_lanes", 1);
+        }
+    }
+}
+
 pub fn run(tier: Tier, report: &mut Report) {
     let mut cfgs: Vec<Cfg> = Vec::new();
     let chunks: &[usize] = tier.pick(&[1, 2, 3, 4, 8][..], &[1, 2, 3, 4, 8, 16][..]);
@@ -163,8 +231,10 @@ pub fn run(tier: Tier, report: &mut Report) {
         let (r, _) = replay(cfg, &data, &[], &[]);
         let k0 = key(&r);
         drop(r);
-        let predicted = (3 * cfg.chunk + cfg.m + 2) * (cfg.m + cfg.chunk + 2) * 8;
-        let res = bfs(vec![(Vec::<Step>::new(), k0)], |h, rep| expand(cfg, &data, h, rep), (50 * predicted + 10_000).min(1_500_000), 4000, &budget, 1, &mut local);
+        let c = cfg.chunks.iter().copied().max().unwrap_or(cfg.chunk).max(cfg.chunk);
+        let predicted = (3 * c + cfg.m + 2) * (cfg.m + c + 2) * 8 * (1 + cfg.chunks.len());
+        let res = bfs(vec![(Vec::<Step>::new(), k0)], |h, rep| expand(cfg, &data, h, rep), (100 * predicted + 10_000).min(3_000_000), 4000, &budget, 1, &mut local);
+        long_runs(cfg, &data, &mut local);
         (local, res)
     });
     let mut closed = 0;
@@ -174,7 +244,10 @@ pub fn run(tier: Tier, report: &mut Report) {
         if res.closed {
             closed += 1;
         } else {
-            report.violation("reader/streaming-memory/no-fixpoint", format!("chunk {} item size {}: the reachable buffer states did not close ({} states, depth {})", cfgs[i].chunk, cfgs[i].m, res.states, res.depth), json!({"property": "C10", "subject": "DeferredReader", "chunk": cfgs[i].chunk, "m": cfgs[i].m}), 0);
+            // States beyond the bound are reported and never expanded, so the state space is finite
+            // and unbounded growth always surfaces as a bound violation: running out of the state
+            // cap or the time budget before the frontier empties is a cap, not a verdict.
+            report.cap(format!("reader fixpoint: chunk {} item size {} chunk-changes {:?} did not close within the state cap / time budget ({} states, depth {}): bound checked on every state visited only", cfgs[i].chunk, cfgs[i].m, cfgs[i].chunks, res.states, res.depth));
         }
         report.notes.push(format!("chunk {} m {} chunk-changes {:?}: {} states, {} transitions, depth {}, closed={}, bound on buf.len() {}", cfgs[i].chunk, cfgs[i].m, cfgs[i].chunks, res.states, res.transitions, res.depth, res.closed, bound(&cfgs[i])));
     }
